@@ -839,66 +839,101 @@ theorem xfer_sound (K : Facts) (mn : Mn) (o : Opd) (s s' : Cpu) (hs : supported 
 
 
 
-/-! ### deadness -/
+/-! ### deadness: everything follows from the local consistency of the table -/
 
-theorem dead_unfold (code : VCode) (r : Res) (k : Nat) (hk : k < code.length) :
-    dead code r k =
-      match code[k]? with
-      | some .dummy | some (.lab _) => dead code r (k + 1)
-      | some (.ins mn o) =>
-        if readsReg mn o r then false
-        else if writesReg mn o r then true
-        else dead code r (k + 1)
-      | some .rts => exitDead r
-      | _ => false := by
-  unfold dead
-  have e : code.length + 1 - k = (code.length + 1 - (k + 1)) + 1 := by omega
-  rw [e, deadFrom]
-  cases code[k]? with
-  | none => rfl
-  | some l => cases l <;> rfl
+theorem consistent_empty (code : VCode) : consistentB code DTable.empty = true := by
+  simp [consistentB, allRes, DTable.empty, DTable.row]
 
-theorem dead_filler (code : VCode) (r : Res) (k : Nat) (h : code[k]? = some .dummy ∨ ∃ l, code[k]? = some (.lab l)) :
-    dead code r k = dead code r (k + 1) := by
-  have hk : k < code.length := by
-    rcases h with h | ⟨l, h⟩ <;> exact (List.getElem?_eq_some_iff.mp h).1
-  rw [dead_unfold code r k hk]
-  rcases h with h | ⟨l, h⟩ <;> simp [h]
+theorem deadTable_consistent (code : VCode) : consistentB code (deadTable code) = true := by
+  unfold deadTable
+  simp only
+  split
+  · assumption
+  · exact consistent_empty code
+
+theorem mem_allRes (r : Res) : r ∈ allRes := by cases r <;> simp [allRes]
+
+/-- a claim of the table is justified at its line -/
+theorem dead_local (code : VCode) (r : Res) (k : Nat) (h : dead code r k = true) :
+    (match code[k]? with
+     | some .dummy | some (.lab _) => dead code r (k + 1)
+     | some (.ins mn o) => !readsReg mn o r && (writesReg mn o r || dead code r (k + 1))
+     | some .rts => exitDead r
+     | some (.br mn l) =>
+       !brReads mn r && dead code r (k + 1) && (match findLab code l with | some t => dead code r t | none => false)
+     | some (.jmp l) => (match findLab code l with | some t => dead code r t | none => false)
+     | _ => false) = true := by
+  have hc := deadTable_consistent code
+  simp only [consistentB, List.all_eq_true, List.mem_range] at hc
+  have hk : k < ((deadTable code).row r).length := by
+    unfold dead DTable.at at h
+    cases hl : ((deadTable code).row r)[k]? with
+    | none => simp [List.getD, hl] at h
+    | some b => exact (List.getElem?_eq_some_iff.mp hl).1
+  have := hc r (mem_allRes r) k hk
+  unfold localOK at this
+  have h' : (deadTable code).at r k = true := h
+  simp only [h', Bool.not_true, Bool.false_or] at this
+  exact this
+
+/-- dead before a dummy or a label: dead behind it -/
+theorem dead_filler (code : VCode) (r : Res) (k : Nat) (h : code[k]? = some .dummy ∨ ∃ l, code[k]? = some (.lab l))
+    (hd : dead code r k = true) : dead code r (k + 1) = true := by
+  have := dead_local code r k hd
+  rcases h with h | ⟨l, h⟩ <;> simpa [h] using this
 
 theorem dead_ins_read (code : VCode) (r : Res) (k : Nat) (mn : Mn) (o : Opd) (h : code[k]? = some (.ins mn o))
     (hr : readsReg mn o r = true) : dead code r k = false := by
-  have hk : k < code.length := (List.getElem?_eq_some_iff.mp h).1
-  rw [dead_unfold code r k hk, h]; simp [hr]
+  cases hd : dead code r k with
+  | false => rfl
+  | true =>
+    have := dead_local code r k hd
+    simp [h, hr] at this
 
 theorem dead_ins_next (code : VCode) (r : Res) (k : Nat) (mn : Mn) (o : Opd) (h : code[k]? = some (.ins mn o))
     (hn : dead code r (k + 1) = false) : writesReg mn o r = true ∨ dead code r k = false := by
-  have hk : k < code.length := (List.getElem?_eq_some_iff.mp h).1
-  rw [dead_unfold code r k hk, h]
-  by_cases hr : readsReg mn o r = true
-  · simp [hr]
-  · by_cases hw : writesReg mn o r = true
-    · exact Or.inl hw
-    · simp [hr, hw, hn]
+  cases hd : dead code r k with
+  | false => exact Or.inr rfl
+  | true =>
+    have := dead_local code r k hd
+    simp [h, hn] at this
+    exact Or.inl this.2
 
-/-- nothing is dead at a line the scan does not pass -/
+/-- at the return only the flags can be dead -/
+theorem dead_rts (code : VCode) (r : Res) (k : Nat) (h : code[k]? = some .rts) (hd : dead code r k = true) :
+    exitDead r = true := by
+  have := dead_local code r k hd
+  simpa [h] using this
+
+/-- dead at a conditional branch: the branch does not test it, and it is dead on both sides -/
+theorem dead_br (code : VCode) (r : Res) (k : Nat) (mn : Mn) (l : String) (h : code[k]? = some (.br mn l))
+    (hd : dead code r k = true) :
+    brReads mn r = false ∧ dead code r (k + 1) = true ∧ ∀ t, findLab code l = some t → dead code r t = true := by
+  have := dead_local code r k hd
+  simp only [h, Bool.and_eq_true, Bool.not_eq_true'] at this
+  refine ⟨this.1.1, this.1.2, ?_⟩
+  intro t ht
+  have h3 := this.2
+  simpa [ht] using h3
+
+/-- dead at a jump: dead at its target -/
+theorem dead_jmp (code : VCode) (r : Res) (k : Nat) (l : String) (h : code[k]? = some (.jmp l))
+    (hd : dead code r k = true) : ∀ t, findLab code l = some t → dead code r t = true := by
+  have := dead_local code r k hd
+  intro t ht
+  simpa [h, ht] using this
+
+/-- nothing is dead before a call or another instruction outside the reasoned set, nor behind the end -/
 theorem dead_barrier (code : VCode) (r : Res) (k : Nat)
-    (h : match code[k]? with | some .dummy | some (.lab _) | some (.ins _ _) | some .rts => False | _ => True) :
+    (h : match code[k]? with | some (.ext _) | none => True | _ => False) :
     dead code r k = false := by
-  by_cases hk : k < code.length
-  · rw [dead_unfold code r k hk]
+  cases hd : dead code r k with
+  | false => rfl
+  | true =>
+    have := dead_local code r k hd
     cases hc : code[k]? with
-    | none => rfl
-    | some l => cases l <;> simp [hc] at h ⊢
-  · unfold dead
-    have : code[k]? = none := by simp; omega
-    cases hf : code.length + 1 - k with
-    | zero => simp [deadFrom]
-    | succ f => simp [deadFrom, this]
-
-/-- at the return exactly the flags are dead -/
-theorem dead_rts (code : VCode) (r : Res) (k : Nat) (h : code[k]? = some .rts) : dead code r k = exitDead r := by
-  have hk : k < code.length := (List.getElem?_eq_some_iff.mp h).1
-  rw [dead_unfold code r k hk, h]
+    | none => simp [hc] at this
+    | some l => cases l <;> simp [hc] at h this
 
 theorem nz_unchanged {s : Cpu} {K : Facts} {r : Res} (v : Byte) (hk : K.nz = some r) (hnz : nzHolds s K.nz)
     (hv : regVal s r = v) : v.msb = s.f.n ∧ (v == 0) = s.f.z := by
